@@ -468,6 +468,11 @@ def gen_links():
     scenario("link-02", "link", doc(css, "\n".join(body), "<title>T2</title>"),
              expect=dict(flows=flows, margin=True, page_w=260, page_h=160, ids=ids, links=links, bookmarks=bms, meta={"Title": "T2"}, line_height=12))
 
+    # dates with every time-zone form
+    for i, (val, want) in enumerate([("2020-01-02T03:04:05-01:15", "2020-01-02T04:19:05Z"), ("2020-01-02T03:04:05+05:30", "2020-01-01T21:34:05Z"), ("1997-07-16T19:20Z", "1997-07-16T19:20:00Z"), ("1997-07", "1997-07-01T00:00:00Z")], start=6):
+        scenario("link-%02d" % i, "link", doc(page_css(220, 150, 10) + BASE, para(words("w", 6)), '<title>D%d</title><meta name=dcterms.created content="%s"><meta name=dcterms.modified content="%s">' % (i, val, val)),
+                 expect=dict(margin=True, page_w=220, page_h=150, meta={"Title": "D%d" % i, "DateCreation": want, "DateModification": want}, line_height=12))
+
     # attachments: <link rel=attachment>, <a rel=attachment>
     css = page_css(220, 150, 10) + BASE
     body = [para(words("w", 10)), '<p><a rel=attachment href="att1.txt">w011</a> w012 <a rel=attachment href="missing.bin">w013</a></p>', para(words("w", 30, 14))]
@@ -893,6 +898,14 @@ def gen_geo():
     scenario("geo-02", "geo", doc(css, body, "<title>Geo</title>"), files={"dot.png": (png(2, 2, (200, 0, 0)), dict(mime="image/png", kind="image"))},
              expect=dict(margin=True, page_w=300, page_h=220, meta={"Title": "Geo"}, line_height=12))
 
+    # clip/paint paths for boxes that generate no border dash / no cell / no content
+    css = page_css(300, 200, 10) + BASE + "table { border-collapse: separate; border-spacing: 2px }\n"
+    W = words("w", 12)
+    body = ('<div style="width:1px;border-top:4px dashed red">%s</div><div style="width:2px;height:2px;border:3px dotted blue"></div><div style="height:1px;border-left:6px dashed green">%s</div>'
+            '<table><colgroup><col style="background:red"><col style="background:blue"><col style="background:green"></colgroup><tr><td>%s</td><td>%s</td></tr><tr style="background:yellow"></tr><tr><td colspan=2>%s</td></tr></table>'
+            '<table><tr style="background:red"></tr></table><table><colgroup style="background: red"><col></colgroup></table>' % tuple(W[:5])) + para(W[5:])
+    scenario("geo-03", "geo", doc(css, body), expect=dict(margin=True, page_w=300, page_h=200, sentinels=W[5:], line_height=12))
+
     # bookmark level sequences (level 2 first; 1,3,2; skipping), headings at the very top of pages, links split across pages
     css = page_css(220, 150, 10) + BASE + "h1 { bookmark-level: 1 } h2 { bookmark-level: 2 } h3 { bookmark-level: 3 } h4 { bookmark-level: 5 }\n.top { break-before: page }\na { color: blue }\n"
     body, flow, ids, links, bms = [], [], {}, [], []
@@ -915,7 +928,7 @@ def gen_geo():
             '<meta name=description content="first"><meta name=description content="second"><meta name=dcterms.created content="2020-01-02T03:04:05+01:00"><meta name=dcterms.modified content="2021-06">')
     scenario("link-05", "link", doc(css, "\n".join(body), head),
              expect=dict(flows={"main": flow}, margin=True, page_w=220, page_h=150, conserve=True, ids=ids, links=links, bookmarks=bms, line_height=12,
-                         meta={"Title": "Spaced title", "Authors": "A One\x1fB Two", "Keywords": "k1\x1fk2\x1fk3\x1fk4", "Description": "first",
+                         meta={"Title": " Spaced   title ", "Authors": "A One\x1f\x1fB Two", "Keywords": "k1\x1fk2\x1fk3\x1fk4", "Description": "first",
                                "DateCreation": "2020-01-02T02:04:05Z", "DateModification": "2021-06-01T00:00:00Z"}))
 
 
